@@ -83,6 +83,12 @@ def flow1d (mid : Rat → Rat → Rat) (ax : List Rat) (o : Nat) (m : Rat → Ra
 def coupledRate (mid : Rat → Rat → Rat) (ax : List Rat) (o : Nat) (m : Rat → Rat → Rat) (y : Nat) : Rat :=
   ((List.range ax.length).map (fun k => flow1d mid ax o m k y)).sum
 
+/-- the coarse grid inside the fine one: the states with even index -/
+def coarsen : List Rat → List Rat
+  | [] => []
+  | [x] => [x]
+  | x :: _ :: rest => x :: coarsen rest
+
 /-! ### levels: `next_level` -/
 
 /-- what `next_level` reads off the chain built on a grid: `equivalent_diffusion_coefficient` (a matrix in the copula
@@ -265,5 +271,23 @@ def tableMargin (tbl : List ((List Nat × Box) × Rat)) (S : List Nat) (b : Box)
   match tbl.find? (fun t => t.1.1 == S && t.1.2 == b) with
   | some t => t.2
   | none => 0
+
+/-! ### a concrete dependent 2-d measure (negation witness of the n-d telescoping, Proofs/C03.lean) -/
+
+/-- length of `[a, b] ∩ [k0, k1]` -/
+def ov (k0 k1 a b : Rat) : Rat := max 0 (min k1 b - max k0 a)
+
+/-- the Lévy measure "Lebesgue measure of x on the segment {(x, 2x) : 0 ≤ x ≤ 1/2}" (complete dependence): its joint box
+    mass and its two margins (density 1 on [0, 1/2]; density 1/2 on [0, 1]).  On the implementation: `TableMeasure`
+    margins with `DependentComponents` copula. -/
+def lineMargin : MarginMass := fun S box =>
+  match S, box with
+  | [0], [(a, b)] => ov 0 (1/2) a b
+  | [1], [(c, d)] => ov 0 1 c d / 2
+  | [0, 1], [(a, b), (c, d)] => ov 0 (1/2) (max a (c / 2)) (min b (d / 2))
+  | _, _ => 0
+
+def cexCoarse : List Rat := [-1, 0, 1]
+def cexFine : List Rat := refine amid cexCoarse
 
 end Rpylib.Coupling
